@@ -55,6 +55,8 @@ var specs = []Spec{
 	{"x/amm/keeper", "Keeper.ExitPool", "exitPoolGuards", false, true, ""},
 	{"x/accountedpool/keeper", "Keeper.PerpetualUpdates", "accountedAmount", false, true, "accountedPool.TotalTokens[i] ="},
 	{"x/perpetual/keeper", "Keeper.CheckAndLiquidateUnhealthyPosition", "perpLiquidateGuards", false, true, "if mtp.MtpHealth.LTE(safetyFactor)"},
+	{"x/stablestake/keeper", "msgServer.Bond", "bondShares", false, true, "shareCoins :="},
+	{"x/stablestake/keeper", "msgServer.Unbond", "unbondAmount", false, true, "depositDenom :="},
 	{"x/perpetual/keeper", "Keeper.ProcessOpen", "perpOpenHealthGuards", false, true, "stopLossPrice :="},
 	{"x/perpetual/keeper", "Keeper.OpenConsolidate", "perpConsolidateHealthGuards", false, true, "stopLossPrice :="},
 	{"x/leveragelp/keeper", "Keeper.ProcessOpenLong", "lpOpenHealthGuards", false, true, "position.LeveragedLpAmount ="},
@@ -71,6 +73,8 @@ var windowFrom = map[string]string{
 	"perpConsolidateHealthGuards": "k.GetMTPHealth(",
 	"lpOpenHealthGuards":          "k.GetPositionHealth(",
 	"perpLiquidateGuards":         "safetyFactor := k.GetSafetyFactor(ctx)",
+	"bondShares":                  "if redemptionRate.IsZero()",
+	"unbondAmount":                "redemptionAmount :=",
 }
 
 // guardIf (prefix mode, with Until naming an `if` statement): the window ends WITH that statement's condition: the definition returns
@@ -87,6 +91,8 @@ var loopBody = map[string]bool{
 }
 
 var windowResult = map[string]string{
+	"bondShares":      "shareAmount",
+	"unbondAmount":    "redemptionAmount",
 	"accountedAmount": "accountedPoolAmt",
 }
 
